@@ -39,7 +39,7 @@ diff -r "$WORK/out" "$WORK/out2" > /dev/null && echo "second run: byte-identical
 coqc_() { (cd "$WORK/coq" && timeout 1800 coqc -Q theories Cqos -w -notation-overridden "theories/$1.v"); }
 
 echo "== compile the models, GoSem and every generated file"
-for f in Base Float64 Divider Sched RateConv Prio2 Prio2Sim Utils GoSem GoConc; do coqc_ $f; done
+for f in Base Float64 Divider Sched RateConv Prio2 Prio2Sim Utils Limit LimitSim Join JoinSim GoSem GoConc; do coqc_ $f; done
 cp "$WORK"/out/Gen*.v "$WORK/coq/theories/"
 for f in "$WORK"/out/Gen[!C]*.v "$WORK"/out/GenConc*.v; do    # part 1 first: GenConc*.v import it
   n=$(basename "$f" .v)
@@ -74,4 +74,10 @@ echo "== part 2: the generated goroutine program against Prio2Sim on scripted en
 python3 "$HERE/validate/gen_conc_cases.py" "$WORK/coq/theories/CasesConcV2Prio.v"
 coqc_ CasesConcV2Prio
 /usr/bin/time -f "ValConcV2Prio.v: %es" bash -c "cd '$WORK/coq' && timeout 3600 coqc -Q theories Cqos theories/ValConcV2Prio.v"
+python3 "$HERE/validate/gen_conc_limit_cases.py" "$WORK/coq/theories/CasesConcLimit.v"
+coqc_ CasesConcLimit
+/usr/bin/time -f "ValConcLimit.v: %es" bash -c "cd '$WORK/coq' && timeout 3600 coqc -Q theories Cqos theories/ValConcLimit.v"
+python3 "$HERE/validate/gen_conc_join_cases.py" "$WORK/coq/theories/CasesConcJoinV2.v"
+coqc_ CasesConcJoinV2
+/usr/bin/time -f "ValConcJoinV2.v: %es" bash -c "cd '$WORK/coq' && timeout 3600 coqc -Q theories Cqos theories/ValConcJoinV2.v"
 echo "== validation passed"
